@@ -293,6 +293,30 @@ pub fn run() {
                     }
                 }
                 // what another node's sync sends
+                // another node's digest of its gRPC connections, as handle_naming_route hands it to the registry
+                Some("digest") => {
+                    let mut data: std::collections::HashMap<Arc<String>, std::collections::HashSet<rnacos::naming::model::InstanceKey>> = Default::default();
+                    for gw in ws.split(|w| *w == "|") {
+                        if kv(gw, "svc").is_empty() {
+                            continue;
+                        }
+                        let k = skey(kv(gw, "svc"));
+                        let ik = rnacos::naming::model::InstanceKey::new_by_service_key(&k, Arc::new(kv(gw, "ip").to_string()), kv(gw, "port").parse().unwrap_or(0));
+                        data.entry(Arc::new(kv(gw, "cid").to_string())).or_default().insert(ik);
+                    }
+                    let cmd = NamingCmd::DiffGrpcDistroData { cluster_id: kv(&ws, "fc").parse().unwrap_or(2), data: rnacos::naming::model::DistroData::ClientInstances(data) };
+                    match a.send(cmd).await {
+                        Ok(Ok(NamingResult::DiffDistroData(rnacos::naming::model::DistroData::DiffClientInstances(v)))) => {
+                            let mut out: Vec<String> = v
+                                .iter()
+                                .map(|k| format!("{}/{}/{}@{}:{}", k.namespace_id, k.group_name, k.service_name, k.ip, k.port))
+                                .collect();
+                            out.sort();
+                            format!("asked {}", if out.is_empty() { "-".to_string() } else { out.join(",") })
+                        }
+                        _ => "err".to_string(),
+                    }
+                }
                 Some("updbatch") | Some("delbatch") => {
                     let mut insts = vec![];
                     for g in ws[1..].split(|w| *w == "|") {
